@@ -132,10 +132,13 @@ def _worker(texts: list[str], start: int, conn):
         t = texts[k]
         conn.send(("start", k))
         signal.setitimer(signal.ITIMER_VIRTUAL, budget(len(t)))
+        import time as _time
+        c0 = _time.process_time()
         toks = real_lex(t) if len(t) <= 4000 else []
         out, site = real_parse(t)
+        cpu = _time.process_time() - c0
         signal.setitimer(signal.ITIMER_VIRTUAL, 0)
-        conn.send(("done", k, toks, out, site))
+        conn.send(("done", k, toks, out, site, cpu))
     conn.close()
 
 
@@ -188,8 +191,8 @@ def run_texts(texts: list[str], shards: int = 16) -> list[dict[str, Any]]:
             if msg[0] == "start":
                 sh["cur"] = msg[1]
             else:
-                _, k, toks, out, site = msg
-                results[sh["a"] + k] = {"toks": toks, "out": out, "site": site, "slow": 0}
+                _, k, toks, out, site, cpu = msg
+                results[sh["a"] + k] = {"toks": toks, "out": out, "site": site, "slow": 0, "cpu": cpu}
                 sh["cur"] = None
                 sh["next"] = sh["a"] + k + 1
     return [r if r is not None else {"toks": [], "out": "not run", "site": "", "slow": 0} for r in results]
@@ -286,7 +289,7 @@ def operand_index_grid() -> list[str]:
 def probes() -> list[tuple[str, str]]:
     """Long inputs whose parsing time must stay proportional to their length."""
     out = []
-    for n in (2000, 20000):
+    for n in (3000, 30000):
         out += [("unterminated string", '"' + "a" * n),
                 ("unterminated string with escapes", '"' + "a\\n" * (n // 3)),
                 ("unterminated quoted symbol", '"test.op"() {a = @"' + "b" * n),
@@ -301,6 +304,9 @@ def probes() -> list[tuple[str, str]]:
                 ("long dense list", '"test.op"() {a = dense<[' + ", ".join(["1"] * (n // 3)) + "]> : tensor<" + str(n // 3) + "xi32>} : () -> ()"),
                 ("long array attr", '"test.op"() {a = [' + ", ".join(["unit"] * (n // 6)) + "]} : () -> ()"),
                 ("long dictionary", '"test.op"() {' + ", ".join(f"k{i} = {i}" for i in range(n // 10)) + "} : () -> ()"),
+                ("dictionary with many unit entries", '"test.op"() {' + ", ".join(f"key{i}" for i in range(n * 2 // 3)) + "} : () -> ()"),
+                ("properties with many entries", '"test.op"() <{' + ", ".join(f"key{i}" for i in range(n * 2 // 3)) + "}> : () -> ()"),
+                ("nested dictionary attribute with many entries", '"test.op"() {d = {' + ", ".join(f"key{i}" for i in range(n * 2 // 3)) + "}} : () -> ()"),
                 ("many operations", "\n".join(f'%{i} = "test.op"() : () -> i32' for i in range(n // 30))),
                 ("many operands", '%0 = "test.op"() : () -> i32\n"test.op"(' + ", ".join(["%0"] * (n // 4)) + ") : (" + ", ".join(["i32"] * (n // 4)) + ") -> ()"),
                 ("long percent identifier", '%' + "v" * n + ' = "test.op"() : () -> i32'),
@@ -398,14 +404,29 @@ def run(ctx: Ctx):
     ctx.coverage["lexed_by_the_real_lexer"] = sum(1 for r in res if r["toks"])
     ctx.coverage["probes"] = len(texts) - n_small
     ctx.log(f"outcomes {ctx.coverage['parser_outcomes']}")
-    cases = [{"text": [ord(c) for c in t], "toks": r["toks"], "out": r["out"], "slow": r["slow"]} for t, r in zip(texts, res)]
+    # probes come in two sizes per shape: the CPU time per character must not grow with the size (quadratic behaviour that
+    # still fits the absolute budget shows up here); times below half a second are not compared
+    growth = [0] * len(texts)
+    by_shape: dict[str, list[int]] = {}
+    for k in range(n_small, len(texts)):
+        by_shape.setdefault(what[k].split(" (")[0], []).append(k)
+    for shape, ks in by_shape.items():
+        if len(ks) != 2:
+            continue
+        a, b = sorted(ks, key=lambda k: len(texts[k]))
+        ta, tb = res[a].get("cpu"), res[b].get("cpu")
+        if ta is None or tb is None or tb < 0.25 or len(texts[b]) < 3 * len(texts[a]):
+            continue
+        growth[b] = int(100 * (tb / len(texts[b])) / (max(ta, 0.01) / len(texts[a])))
+    ctx.coverage["probe_cost_growth_percent"] = {what[k].split(" (")[0][7:]: g for k, g in enumerate(growth) if g}
+    cases = [{"text": [ord(c) for c in t], "toks": r["toks"], "out": r["out"], "slow": r["slow"], "growth": g} for t, r, g in zip(texts, res, growth)]
     # long probes: the judge needs only their outcome, not a model lexing of 20000 characters
     for k in range(n_small, len(cases)):
         cases[k]["toks"] = []
         if len(cases[k]["text"]) > 3000:
             cases[k]["text"] = cases[k]["text"][:1] if cases[k]["out"] != "ok" else [120]
     jr = casecheck.run_cases("lex/MLIRLexerCases.tla", cases, timeout=3300)
-    VIOL = {"FailsOnlyWithDiagnostics", "TerminatesPromptly"}
+    VIOL = {"FailsOnlyWithDiagnostics", "TerminatesPromptly", "TimeProportionalToLength"}
     n_div = 0
     seen_sites: dict[tuple[str, str], int] = {}
     for idx, tail in jr.mismatches:
@@ -418,7 +439,7 @@ def run(ctx: Ctx):
             if seen_sites[key] > 3:
                 continue
             shown = t if len(t) <= 300 else t[:120] + f" ... ({len(t)} characters)"
-            ctx.violate(f"{what[idx]} {shown!r}: {clause} " + (f"({r['out']} at {r['site']})" if clause == "FailsOnlyWithDiagnostics" else f"(more than {budget(len(t)):.1f} s of CPU)"),
+            ctx.violate(f"{what[idx]} {shown!r}: {clause} " + (f"({r['out']} at {r['site']})" if clause == "FailsOnlyWithDiagnostics" else f"(CPU time per character {growth[idx] / 100:.1f} times that of the same shape at a tenth of the length)" if clause == "TimeProportionalToLength" else f"(more than {budget(len(t)):.1f} s of CPU)"),
                         {"clause": clause, "exception": r["out"], "site": r["site"].split("|")[0], "enum_conversion": r["site"].endswith("|enum-conversion"), "text": t if len(t) <= 3000 else t[:3000], "length": len(t), "probe": what[idx] if what[idx].startswith("probe") else "",
                          "huge_dimension": bool(__import__("re").search(r"<\d{10,}x|x\d{10,}x", t))},
                         clause=clause)
